@@ -232,7 +232,7 @@ impl M {
         self.host(out, json!({"op": "rmbp", "bp": {"k": "pc", "a": pc, "c": {"k": "never", "v": 0}}}));
     }
     pub fn mark(&mut self, out: &mut Out) { self.host(out, json!({"op": "mark"})); }
-    pub fn trapdone(&mut self, out: &mut Out, vect: u16, prompt: u16) { self.host(out, json!({"op": "trapdone", "vect": vect, "prompt": prompt})); }
+    pub fn trapdone(&mut self, out: &mut Out, vect: u16, prompt: u16, hch: i32) { self.host(out, json!({"op": "trapdone", "vect": vect, "prompt": prompt, "hch": hch})); }
     pub fn halted(&mut self, out: &mut Out) { self.host(out, json!({"op": "halted"})); }
     /// Replace the keyboard by a fresh BufferedKeyboard (new empty buffer) or by a register device.
     pub fn set_keyboard_new(&mut self, out: &mut Out, as_reg: Option<u16>) {
